@@ -41,6 +41,7 @@ def py_vs_sql(ctx, sql, py, label) -> int:
     """The Python and SQL implementations agree: canonical string, four renderings, and the normal form of every spelling."""
     bad = []
     n = 0
+    differ = []
     for k in sorted(sql):
         for num, (rs, rp) in enumerate(zip(sql[k], py[k]), 1):
             a = [rs[0]] + ["~NONE" if x == "~ERR" else x for x in rs[2:6]] + rs[6:]
@@ -48,7 +49,16 @@ def py_vs_sql(ctx, sql, py, label) -> int:
             if a != rp:
                 j = next(i for i, (x, y) in enumerate(zip(a, rp)) if x != y)
                 bad.append((k, num, j, a[j], rp[j]))
+            # every documented spelling denotes the same period as the others (engine-only predicate, both implementations)
+            if set(rs[6:]) != {rs[0]} and k[0] >= 1000:
+                differ.append(("SQL vtl_period_normalize", k, num, rs[0], rs[6:]))
+            if set(rp[5:]) != {rp[0]} and k[0] >= 1000:
+                differ.append(("Python check_time_period", k, num, rp[0], rp[5:]))
     ctx.count(None, n)
+    if differ:
+        w, k, num, c, got = differ[0]
+        ctx.violation(f"spellings-disagree:{k[1]}", f"{label}: {w}: the documented spellings of {D.canon((k[0], k[1], num))} are read as {got}, "
+                      f"canonical form {c} ({len(differ)} periods)", {"kind": "py_sql", "year": k[0], "ind": k[1], "num": num, "readings": got})
     if bad:
         low = [b for b in bad if b[0][0] < 1000]
         other = [b for b in bad if b[0][0] >= 1000]
@@ -313,6 +323,26 @@ def k_run_roundtrip(ctx) -> None:
     ctx.log(f"K: {nruns} run() calls over {len(per)} periods of {len(ys)} years in {time.time() - t0:.1f}s")
 
 
+def k_corpus(ctx) -> None:
+    """corpus first: past minimal failures (all of them known findings today)"""
+    import json
+    files = sorted((common.CORPUS / "C21").glob("*.json"))
+    for f in files:
+        w = json.loads(f.read_text())
+        res = run_column(w["values"], w["fmt"])
+        ctx.count(("corpus", f.name))
+        if "expected_error" in w:
+            bad = res["ok"] or res["err"][0] in ("RawDuckDB", "RawPython")
+            what = f"corpus {f.name}: output format {w['fmt']} on {w['values']}: " + (f"returned {res.get('column')}" if res["ok"] else f"raised raw {res['err']}") + ", a VTL error is required"
+        else:
+            got = res.get("column") if res["ok"] else [str(res["err"])]
+            bad = got != w["expected"]
+            what = f"corpus {f.name}: inputs {w['values']} come back as {got}, documented {w['expected']}"
+        if bad:
+            ctx.violation(w["key"], what, {"kind": "column", "values": w["values"], "fmt": w["fmt"], "expected": w.get("expected", "a VTL error")})
+    ctx.cov["corpus_cases"] = len(files)
+
+
 def run(ctx):
     ctx.cov["rule"] = ("exhaustive on its domain: every valid period of the years taken (thorough: all of 1900-2100; quick: 28 of them) x (canonical form, parse, 4 renderings, every documented spelling) on the SQL "
                        "side and the Python side; sampled years of 0001-9999 pointwise; run()-level round trips; distinct = shard (indicator, year) "
@@ -321,7 +351,7 @@ def run(ctx):
     ctx.prove("C21")
     okm, out = common.coq_make(P.COQ_TARGETS)
     ctx.oblige("Model/Period.vo builds", okm, out[-300:])
-    for name, fn in (("x_strings", x_strings), ("x_sampled_years", x_sampled_years), ("x_py_shift", x_py_shift), ("k_run_roundtrip", k_run_roundtrip)):
+    for name, fn in (("k_corpus", k_corpus), ("x_strings", x_strings), ("x_sampled_years", x_sampled_years), ("x_py_shift", x_py_shift), ("k_run_roundtrip", k_run_roundtrip)):
         try:
             fn(ctx)
         except Exception as e:  # noqa
